@@ -53,8 +53,13 @@ def run_history(sc: dict) -> dict:
     idle_calls = []
     import bubus.service as svc
 
-    if hasattr(svc, '_global_eventbus_lock'):
+    # successive histories run in successive event loops of one process; the library's process-wide lock lives on between them
+    # (thrown away only after a run that was torn down in a hang) - see bvt.engine.run_scenario
+    from bvt import engine as _eng
+
+    if _eng._LOCK_DIRTY and hasattr(svc, '_global_eventbus_lock'):
         svc._global_eventbus_lock = None
+    _eng._LOCK_DIRTY = False
 
     def mk(**kw):
         tag = st['n']
@@ -375,6 +380,8 @@ def run_history(sc: dict) -> dict:
             asyncio.set_event_loop(None)
             EventBus.all_instances.clear()
     out.pop('bus', None)
+    if out.get('hang') or out.get('stalled'):
+        _eng._LOCK_DIRTY = True
     out['accepted'] = len(accepted)
     out['rejected'] = len(rejected)
     out['idle_calls'] = [{k: v for k, v in r.items()} for r in idle_calls]
